@@ -121,6 +121,8 @@ func writeSrcFacts(outdir string) error {
 	type site struct{ fn, kind string }
 	var panics, ranges []site
 	writes := map[string]bool{}  // "file|function|lhs" for writes through a receiver, a parameter or a package variable
+	var order []string // fields of the schema in the order state.validate first mentions them
+	orderSeen := map[string]bool{}
 	globals := map[string]bool{} // package-level variables
 	for _, f := range files {
 		for _, d := range f.Decls {
@@ -217,6 +219,12 @@ func writeSrcFacts(outdir string) error {
 						if fn == "state.validate" {
 							ranges = append(ranges, site{fn, exprString(y.X)})
 						}
+					case *ast.SelectorExpr:
+						// the order in which the evaluator first consults each keyword of the schema
+						if id, ok := y.X.(*ast.Ident); ok && fn == "state.validate" && id.Name == "schema" && !orderSeen[y.Sel.Name] {
+							orderSeen[y.Sel.Name] = true
+							order = append(order, y.Sel.Name)
+						}
 					case *ast.CallExpr:
 						if id, ok := y.Fun.(*ast.Ident); ok && (id.Name == "panic" || id.Name == "assert") {
 							panics = append(panics, site{fn, id.Name})
@@ -290,6 +298,14 @@ func writeSrcFacts(outdir string) error {
 	sort.Strings(rkeys)
 	b.WriteString("\nDefinition src_validate_ranges : list str :=\n  [ ")
 	for i, k := range rkeys {
+		if i > 0 {
+			b.WriteString(";\n    ")
+		}
+		b.WriteString(coqStr(k))
+	}
+	b.WriteString(" ].\n")
+	b.WriteString("\nDefinition src_validate_order : list str :=\n  [ ")
+	for i, k := range order {
 		if i > 0 {
 			b.WriteString(";\n    ")
 		}
